@@ -11,7 +11,7 @@
     boolean and evaluated on every generated case ([op_wfb], [batched_wfb]): column names are
     identifiers, a pointer has one pointee, rows have one value per column. *)
 From Coq Require Import List String Bool ZArith.
-From Thunder Require Import Sql.Model Sql.Confine Sql.Methods Sql.MethodsProofs Gen.DbMethods.
+From Thunder Require Import Sql.Model Sql.ModelExact Sql.Confine Sql.BatchProofs Sql.ShardRows Sql.Methods Sql.MethodsProofs Gen.DbMethods.
 Import ListNotations.
 Open Scope string_scope.
 
@@ -107,6 +107,24 @@ Theorem c12_mixed_handle_noncomplying_rejected :
     nth i (snd (run_batched_multi t cs arrival)) Proceeds <> Proceeds /\ ~ In i (List.concat arrival).
 Proof. exact c12_multi_noncomplying_b. Qed.
 Print Assumptions c12_mixed_handle_noncomplying_rejected.
+
+(** C12 composed with C10 (the rows RECEIVED, not only the statements sent): in any batch -- one handle or
+    several handles sharing the batch function, any grouping of the callers into invocations, any other callers,
+    any representable table contents -- a caller that passed the limit check of its own handle and whose filter
+    lies in the exact domain of the transparency theorem is handed rows of its shard only.  (Outside that
+    domain the matcher may hand a caller a row fetched for another one: open finding c10-batch-matcher-go-type.) *)
+Theorem c12_batched_rows_lie_in_the_shard :
+  forall h t fs arrival contents i rows l k v,
+    table_ok t = true -> columns_ok t = true ->
+    filter_transparent t (nth_filter fs i) = true ->
+    forallb (row_representable t) contents = true ->
+    In (i, rows) (batched_by_arrival t fs arrival contents) ->
+    caller_outcome h t (nth_filter fs i) = Proceeds ->
+    filter_ptrs_okb (nth_filter fs i) l = true ->
+    In l (enforced_limits h) -> In (k, v) l ->
+    exists d, read_value t k v d /\ Forall (fun r => in_shard (cell r k) d) rows.
+Proof. exact batched_rows_in_shard. Qed.
+Print Assumptions c12_batched_rows_lie_in_the_shard.
 
 (** Any sequence of operations inside one transaction of the caller. *)
 Theorem c12_transaction_sequence_confined :
@@ -281,6 +299,17 @@ Example ex_explain :
   /\ run_call ex_x ex_users (mk_ctx false false) (CQuery [("name", GStr "" "bob")] None) = ([], 1)
   /\ run_call ex_x ex_users (mk_ctx true false) CWithTx = ([], 1)
   /\ run_call ex_x ex_users (mk_ctx false false) CWithTx = ([XEv EBegin], 0).
+Proof. repeat split; vm_compute; reflexivity. Qed.
+
+(** Two handles in one batch, rows of both shards fetched by the one statement: each caller gets its own. *)
+Example ex_rows_in_shard :
+  batched_by_arrival ex_users [[("shard", GInt KI64 "" 7)]; [("shard", GInt KI64 "" 8)]] [[1; 0]]
+    [[("id", DInt 1); ("shard", DInt 7); ("name", DStr "a"); ("nick", DNull)];
+     [("id", DInt 2); ("shard", DInt 8); ("name", DStr "b"); ("nick", DNull)]]
+  = [(1, [[("id", DInt 2); ("shard", DInt 8); ("name", DStr "b"); ("nick", DNull)]]);
+     (0, [[("id", DInt 1); ("shard", DInt 7); ("name", DStr "a"); ("nick", DNull)]])]
+  /\ filter_transparent ex_users [("shard", GInt KI64 "" 7)] = true
+  /\ caller_outcome ex_handle ex_users [("shard", GInt KI64 "" 7)] = Proceeds.
 Proof. repeat split; vm_compute; reflexivity. Qed.
 
 Example ex_table_nonempty : List.length db_methods = 18 /\ In ("UpsertRows", (false, true, true)) db_methods.
